@@ -98,10 +98,11 @@ def mbox_name_is_inside(name: str) -> bool:
     """
     Mailbox names are paths relative to the user's mail directory. Returns
     False for a name that would lead somewhere else: an absolute path, or one
-    with a `..` component.
+    with a `..` component. Nor is `.`, the mail directory itself, a mailbox.
     """
+    parts = name.split("/")
     return not (
-        name.startswith("/") or ".." in name.split("/") or "\0" in name
+        name.startswith("/") or ".." in parts or "." in parts or "\0" in name
     )
 
 
